@@ -180,7 +180,7 @@ theorem opEnergy_nonneg (c : Costs) (l : ELayer) (v : ℚ)
           have h3 := opCost_nonneg _ _ _ _ _ he
           positivity
   · -- avgPool
-    cases ha : l.accumulator with
+    cases ha : l.poolAccumulator with
     | none => simp [ha] at h
     | some a =>
       cases ht : opType? a with
